@@ -25,6 +25,10 @@ def run(drv, prog, inputs):
             setattr(ctx, n, rt.PrivVal(spec["v"]))
         elif spec["ty"] == "bool":
             setattr(ctx, n, bo.PrivValBool(spec["v"]))
+        elif spec["ty"] == "array":
+            setattr(ctx, n, drv.ar.Array([rt.PrivVal(v) for v in spec["v"]]))
+        elif spec["ty"] == "matrix":
+            setattr(ctx, n, [[rt.PrivVal(v) for v in row] for row in spec["v"]])
         else:
             setattr(ctx, n, spec["v"])
     loopvars = {}
@@ -35,6 +39,9 @@ def run(drv, prog, inputs):
             return loopvars[e["n"]] if e["n"] in loopvars else getattr(ctx, e["n"])
         if k == "const":
             return e["v"]
+        if k == "aget":
+            a = getattr(ctx, e["n"])
+            return a[e["i"]] if "j" not in e else a[e["i"]][e["j"]]
         l, r = ev(e["l"]), ev(e["r"])
         if k == "div":
             return l / r if not isinstance(l, int) else l // r
@@ -56,6 +63,14 @@ def run(drv, prog, inputs):
         k = s["s"]
         if k == "assign":
             setattr(ctx, s["n"], ev(s["e"]))
+        elif k == "aset":
+            # in-place update of a container held in a tracked variable: _.a[i] = e  /  _.m[i][j] = e
+            a = getattr(ctx, s["n"])
+            i = ev(s["i"]) if isinstance(s["i"], dict) else s["i"]
+            if "j" in s:
+                a[i][s["j"]] = ev(s["e"])
+            else:
+                a[i] = ev(s["e"])
         elif k == "if":
             arms = s["arms"]
             _if(cond(arms[0]["c"]), ctx)
@@ -90,4 +105,10 @@ def run(drv, prog, inputs):
     finally:
         # leave no open contexts behind (BranchingValues.__del__ would raise inside the garbage collector)
         ctx.stack.clear()
-    return [getattr(ctx, n) for n in names]
+    def flat(o):
+        if isinstance(o, drv.ar.Array):
+            return [y for x in o.arr for y in flat(x)]
+        if isinstance(o, list):
+            return [y for x in o for y in flat(x)]
+        return [o]
+    return [y for n in names for y in flat(getattr(ctx, n))]
